@@ -25,13 +25,61 @@ def r1_walk_weights(ctx, rule):
         ok = False
         ctx.bad(rule, RW, 'draw targets %s' % facts['targets'], 'each selection compares the cumulative weight with one uniform '
                 'draw on [0,1): scaling the draw (or re-using one) changes the distribution', facts, fn)
-    # cumulative updates
+    # cumulative updates: which element of which table each weight is taken from, whatever the loop looks like
     accs = [s for s in walk_stmts(fn.body) if isinstance(s, ast.AugAssign) and U(s.target) == 'cur_prob' and isinstance(s.op, ast.Add)]
     facts['weights'] = [U(s.value) for s in accs]
-    base_w = [s for s in accs if U(s.value) == "item['prob']"]
-    g = "self.grammar[pt_type][index]"
-    grp_w = [s for s in accs if U(s.value) in ("%s['prob'] * len(%s['values'])" % (g, g), "len(%s['values']) * %s['prob']" % (g, g))]
-    if len(accs) != 2 or len(base_w) != 1 or len(grp_w) != 1:
+    stores_ = stores_in(fn)
+    elem = {}           # loop variable -> text of the table it is an element of
+    for lp in [n for n in walk_local(fn) if isinstance(n, ast.For)]:
+        if isinstance(lp.target, ast.Name) and not (isinstance(lp.iter, ast.Call) and call_name(lp.iter) in ('range', 'enumerate')):
+            elem[lp.target.id] = U(lp.iter)
+        if isinstance(lp.target, ast.Tuple) and len(lp.target.elts) == 2 and isinstance(lp.iter, ast.Call) and call_name(lp.iter) == 'enumerate' \
+                and lp.iter.args and isinstance(lp.target.elts[1], ast.Name):
+            elem[lp.target.elts[1].id] = U(lp.iter.args[0])
+
+    def loop_table(name_node):
+        cur = mod.parents.get(id(name_node))
+        while cur is not None and cur is not fn:
+            if isinstance(cur, ast.For):
+                if isinstance(cur.target, ast.Name) and cur.target.id == name_node.id and not (
+                        isinstance(cur.iter, ast.Call) and call_name(cur.iter) in ('range', 'enumerate')):
+                    return U(cur.iter)
+                if isinstance(cur.target, ast.Tuple) and len(cur.target.elts) == 2 and isinstance(cur.target.elts[1], ast.Name) \
+                        and cur.target.elts[1].id == name_node.id and isinstance(cur.iter, ast.Call) and call_name(cur.iter) == 'enumerate' and cur.iter.args:
+                    return U(cur.iter.args[0])
+            cur = mod.parents.get(id(cur))
+        return None
+
+    def table_of(e):
+        """text of the table that expression e is an element of (`x` of `for x in T`, `T[i]`), or None"""
+        if isinstance(e, ast.Name) and e.id in elem:
+            return loop_table(e) or elem[e.id]
+        if isinstance(e, ast.Name):
+            e = expand(fn, e, stores_, depth=1)
+        if isinstance(e, ast.Subscript) and not isinstance(e.slice, ast.Slice):
+            return U(e.value)
+        return None
+
+    def weight_kind(v):
+        if isinstance(v, ast.Subscript) and const(v.slice) == 'prob':
+            t = table_of(v.value)
+            return ('elem-prob', t) if t else None
+        if isinstance(v, ast.BinOp) and isinstance(v.op, ast.Mult):
+            for a_, b_ in ((v.left, v.right), (v.right, v.left)):
+                if isinstance(a_, ast.Subscript) and const(a_.slice) == 'prob' and isinstance(b_, ast.Call) and call_name(b_) == 'len' and b_.args \
+                        and isinstance(b_.args[0], ast.Subscript) and const(b_.args[0].slice) == 'values' \
+                        and table_of(a_.value) is not None and table_of(a_.value) == table_of(b_.args[0].value) \
+                        and U(expand(fn, a_.value, stores_)) == U(expand(fn, b_.args[0].value, stores_)):
+                    return ('elem-prob*len(values)', table_of(a_.value))
+        return None
+    kinds = [weight_kind(s.value) for s in accs]
+    facts['weight_kinds'] = kinds
+    kinds = [(k[0], 'self.grammar[<type of the position>]' if k and k[1].startswith('self.grammar[') else k[1]) if k else None for k in kinds]
+    want_kinds = [('elem-prob', 'self.base'), ('elem-prob*len(values)', 'self.grammar[<type of the position>]')]
+    if any(k is None for k in kinds):
+        ok = False
+        ctx.unk(rule, RW, 'cumulative weights %s are not understood' % facts['weights'], facts)
+    elif sorted(kinds, key=str) != sorted(want_kinds, key=str):
         ok = False
         ctx.bad(rule, RW, 'cumulative weights %s' % facts['weights'],
                 "a base structure is chosen with weight prob; a group with weight prob * len(values) (a group's probability is "
@@ -50,11 +98,41 @@ def r1_walk_weights(ctx, rule):
     facts['loops'] = iters
     need = ['self.base', "item['replacements']", "enumerate(pt_item['pt'])", 'range(0, max_index)']
     if sorted(iters) != sorted(need) or "max_index = len(self.grammar[pt_type])" not in U(fn):
-        ok = False
-        ctx.bad(rule, RW, 'loops %s' % iters, 'all base structures, all positions and all groups of a position must be candidates', facts, fn)
+        # other spellings of "every element of the table": for x in T / for i, x in enumerate(T) / for i in range(len(T))
+        def covers(tbl):
+            for l in loops:
+                it = l.iter
+                if U(it) == tbl or (isinstance(it, ast.Call) and call_name(it) == 'enumerate' and len(it.args) == 1 and U(it.args[0]) == tbl):
+                    return True
+                if isinstance(it, ast.Call) and call_name(it) == 'range' and it.args and \
+                        (U(it.args[-1]) == 'len(%s)' % tbl or U(expand(fn, it.args[-1], stores_, depth=1)) == 'len(%s)' % tbl) \
+                        and (len(it.args) == 1 or (len(it.args) == 2 and const(it.args[0]) == 0)):
+                    return True
+            return False
+        if all(covers(t) for t in ('self.base', "pt_item['pt']")) and (covers('self.grammar[pt_type]') or covers('self.grammar[item[0]]')) and \
+                not any(isinstance(x, ast.Continue) for l in loops for x in ast.walk(l)):
+            pass
+        elif any(isinstance(n, ast.While) for n in walk_local(fn)):
+            ok = False
+            ctx.unk(rule, RW, 'candidate loops %s (and while loops) are not understood' % iters, facts)
+        else:
+            ok = False
+            ctx.bad(rule, RW, 'loops %s' % iters, 'all base structures, all positions and all groups of a position must be candidates', facts, fn)
     # the chosen index is stored for the position; every selection ends with break
-    sel = [s for s in walk_stmts(fn.body) if isinstance(s, ast.Assign) and U(s.targets[0]) == "pt_item['pt'][pointer]"]
-    if [U(s.value) for s in sel] != ['(item[0], index)']:
+    sel = [s for s in walk_stmts(fn.body) if isinstance(s, ast.Assign) and isinstance(s.targets[0], ast.Subscript)
+           and U(s.targets[0].value) == "pt_item['pt']"]
+    def type_of_position(e):
+        t = U(e)
+        x = U(expand(fn, e, stores_, depth=2))
+        pos = U(sel[0].targets[0].slice) if sel else 'pointer'
+        for l in loops:
+            if isinstance(l.target, ast.Tuple) and len(l.target.elts) == 2 and isinstance(l.target.elts[1], ast.Tuple) and l.target.elts[1].elts \
+                    and U(l.target.elts[1].elts[0]) == t and U(l.iter) == "enumerate(pt_item['pt'])":
+                return True
+        return any(v in ('item[0]', "pt_item['pt'][%s][0]" % pos) for v in (t, x)) or \
+            (t == 'pt_type' and any(w in U(fn) for w in ("pt_type = item[0]", "pt_type = pt_item['pt'][%s][0]" % pos)))
+    sel_ok = len(sel) == 1 and isinstance(sel[0].value, ast.Tuple) and len(sel[0].value.elts) == 2 and type_of_position(sel[0].value.elts[0])
+    if not sel_ok:
         ok = False
         ctx.bad(rule, RW, 'selected group stored as %s' % [U(s.value) for s in sel], 'the position must point to the selected group', facts, fn)
     for t in tests:
